@@ -5,6 +5,7 @@ re-chunking WSGI middleware, every truncation offset of every generated body (DA
 import io
 import random
 
+import c05 as C5
 import dap2gen as G
 import dap4ref as D
 from common import Report, clist, coq_eval_mismatches, proof_phase, use_repo
@@ -139,6 +140,7 @@ def main():
     nseq = 12 if T == "quick" else 120
     seq_checked = 0
     trunc2_checked = 0
+    t2_cases = []
     for i in range(nseq):
         desc = G.gen_dataset(rng, kinds=("seq", "seq", "base", "struct", "grid"))
         try:
@@ -186,12 +188,27 @@ def main():
             full = repr_tree(unpack_dap2_data(BytesReader(data), dds_to_dataset(dds_txt.decode("ascii"))), np)
         except Exception:
             continue
+        # the DAP2 decoder MODEL (Xdr.unpack, the subject of C09_dap2_truncation_safe) on sampled cuts of the same body
+        try:
+            decl2 = C5.c_decl(desc)
+            C5.decoded_to_desc_val(desc, unpack_dap2_data(BytesReader(data), dds_to_dataset(dds_txt.decode("ascii"))), np)
+            ks2 = set(rng.sample(range(len(data)), min(len(data), 12 if T == "quick" else 40)))
+            ks2 |= {0, len(data) - 1, len(data) - 4, max(0, len(data) - 5)} & set(range(len(data)))
+        except Exception:
+            decl2, ks2 = None, set()
         for k in range(len(data)):
             try:
-                got = repr_tree(unpack_dap2_data(BytesReader(data[:k]), dds_to_dataset(dds_txt.decode("ascii"))), np)
+                raw_got = unpack_dap2_data(BytesReader(data[:k]), dds_to_dataset(dds_txt.decode("ascii")))
+                got = repr_tree(raw_got, np)
             except Exception:
-                got = None
+                raw_got = got = None
             trunc2_checked += 1
+            if k in ks2:
+                try:
+                    impl = "None" if got is None else "(Some %s)" % C5.decoded_to_desc_val(desc, raw_got, np)[0]
+                    t2_cases.append("(%s, %s, %s)" % (decl2, cB(data[:k]), impl))
+                except Exception:
+                    pass
             if got is not None and got != full:
                 direct.append({"law": "a DAP2 body cut short raises or decodes to the complete data", "dataset": repr(desc)[:800],
                                "cut_at": k, "length": len(data)})
@@ -245,9 +262,11 @@ def main():
               ("find", "chk_find", fp_cases, "list N * list (list N) * option (list N * list (list N))"),
               ("trunc4", "chk_dap4", t4_cases, "list N * list var4 * option (bool * list (list value))")]
     mism = {}
+    groups.append(("trunc2", "chk_unpack", t2_cases, "decl * list N * option val"))
     for name, chk, cases, ctype in groups:
         try:
-            bad = coq_eval_mismatches(PID + "_" + name, IMPORTS, chk, cases, ctype, shard=100, ztype=True)
+            bad = coq_eval_mismatches(PID + "_" + name, "XdrCases" if name == "trunc2" else IMPORTS, chk, cases, ctype,
+                                      shard=100, ztype=True)
         except RuntimeError as e:
             r.violation({"kind": "correspondence-broken", "group": name, "error": str(e)[-1500:],
                          "theorem": "correspondence %s (model could not be evaluated)" % name}, found=False)
@@ -273,8 +292,9 @@ def main():
                              "case": mism[name][0][:3000], "n_mismatches": len(mism[name])}, found=False)
     r.assumptions = [
         "find_pattern_in_string_iter is modelled for a literal pattern (re.search of b'Data:\\n')",
-        "DAP2 truncation safety is decided by the exhaustive-offset oracle of this run plus the strict-reader theorem; the DAP2 "
-        "decoder itself is modelled under C05",
+        "DAP2 truncation: C09_dap2_truncation_safe / C09_dap2_strict_prefix_rejected are about the decoder model Xdr.unpack "
+        "(shared with C05); it is compared with unpack_dap2_data on sampled cuts of every generated body (and on whole "
+        "reference bodies under C05), while every cut is run on the implementation",
         "webob joins app_iter for non-sequence reads; chunking therefore matters for sequence reads (SequenceProxy) only",
     ]
     r.finish()
